@@ -53,6 +53,26 @@ func step_C13_supported(container *IKEPayloadContainer, container_h IKEPayloadCo
 	return nextPayload == b_h[0] && verifSameSlice(b, b_h[plen:]) && len(*container) == len(container_h)+1
 }
 
+// The other half of "skipped": an iteration that meets a well-formed unsupported
+// payload may give the walk up (return from inside the loop) only when the critical
+// bit is set - for no type code outside 33..48 is a non-critical payload a reason to
+// reject the message.  Checked on every edge that leaves the loop from inside its body.
+//
+//verif:exit (*message.IKEPayloadContainer).Decode loop1
+func exit_C13_only_critical_unsupported_rejects(b_h []byte, nextPayload_h uint8) bool {
+	if nextPayload_h >= 33 && nextPayload_h <= 48 {
+		return true
+	}
+	if len(b_h) < 4 {
+		return true
+	}
+	plen := int(b_h[2])<<8 | int(b_h[3])
+	if plen < 4 || plen > len(b_h) {
+		return true
+	}
+	return b_h[1]&0x80 != 0
+}
+
 // the steps are obligations of the chain walker; this lemma makes C13 run it
 func lemma_C13_chain(next uint8, b []byte) {
 	var c IKEPayloadContainer
